@@ -130,7 +130,7 @@ func runCase(c CaseIn) CaseOut {
 	if c.Tool == "drc" {
 		mainFunc = drc.Main
 		logFile = filepath.Join(work, "drc.log")
-		os.Args = []string{"drc", "-q", "-L", logDir, "--LOGFILE", logFile}
+		os.Args = []string{"drc", "-L", logDir, "--LOGFILE", logFile}
 		if c.Mode == "compare" {
 			os.Args = append(os.Args, "-C")
 		}
